@@ -77,6 +77,12 @@ class _FaultyWriter:
     def flush(self):
         self.raw.flush()
 
+    def truncate(self, size=None):
+        return self.raw.truncate(size) if size is not None else self.raw.truncate()
+
+    def __getattr__(self, attr):          # tell, seek, fileno, ...
+        return getattr(self.raw, attr)
+
     def close(self):
         self.raw.close()
         self.rec['closed'] = True
@@ -165,9 +171,49 @@ def seam_open(path, mode='r', *args, **kwargs):
     return builtins.open(path, mode, *args, **kwargs)
 
 
+class _OsProxy:
+    """Stands in for the ``os`` module inside ``valjean.cosette.env`` when that module
+    imports it: files opened with ``os.open`` + ``os.fdopen`` go through the same fault
+    injection as files opened with the builtin ``open``."""
+
+    def __init__(self):
+        self._paths = {}
+
+    def __getattr__(self, attr):
+        return getattr(os, attr)
+
+    def open(self, path, flags, *args, **kwargs):
+        desc = os.open(path, flags, *args, **kwargs)
+        try:
+            self._paths[desc] = os.fspath(path)
+        except TypeError:
+            pass
+        return desc
+
+    def fdopen(self, desc, mode='r', *args, **kwargs):
+        key = self._paths.pop(desc, None)
+        if key is None or 'b' not in mode or not ('w' in mode or 'a' in mode or 'x' in mode
+                                                   or '+' in mode):
+            return os.fdopen(desc, mode, *args, **kwargs)
+        PLAN.opens += 1
+        rec = {'path': key, 'mode': mode, 'fired': False, 'written': None, 'closed': False}
+        PLAN.log.append(rec)
+        spec = PLAN.write.get(key)
+        if spec is not None and spec['mode'] == 'open_err':
+            os.close(desc)
+            rec['fired'] = True
+            num = ERRNOS[spec['errno']]
+            raise OSError(num, os.strerror(num), key)
+        raw = os.fdopen(desc, mode, buffering=0)
+        return _FaultyWriter(raw, spec if spec is not None
+                             else {'after': float('inf'), 'mode': 'none'}, rec)
+
+
 def install(envmod):
-    """Shadow the builtin ``open`` inside module ``envmod``."""
+    """Shadow the builtin ``open`` (and ``os``, if imported) inside module ``envmod``."""
     envmod.__dict__['open'] = seam_open
+    if 'os' in envmod.__dict__ and not isinstance(envmod.__dict__['os'], _OsProxy):
+        envmod.__dict__['os'] = _OsProxy()
 
 
 # --------------------------------------------------------------------------
